@@ -26,7 +26,7 @@ META = {
         "quick": {"evaluations": 8000, "distinct_nontrivial": 300, "tables": {"hook/plan-compared": 3000, "hook/plan-cache-hit": 800, "m2/configs-compared": 6, "m2/subprocess-configs": 8, "m3/context-checks": 200, "m4/ops-compared": 1500, "m4/injected-switches": 5000, "m4/switches-in-fuse-path": 1000, "m1/evictions": 100, "m1/prefused-extent-families": 40, "m5/repo-tests:plan-compared": 200}},
         "thorough": {"evaluations": 100000, "distinct_nontrivial": 3000, "tables": {"m4/injected-switches": 100000, "m4/switches-in-fuse-path": 20000}},
     },
-    "wall": {"quick": 115, "thorough": 1700},
+    "wall": {"quick": 200, "thorough": 1700},
     "workers": {"quick": 8, "thorough": 12},
 }
 
@@ -463,6 +463,15 @@ def run(ctx):
         cold = ctx.run_case(monitor2, ctx, hooks, 1000 + idx, 40)
         if cold is not None and idx % ctx.nshards == ctx.shard and idx < ctx.nshards * ctx.n(1, 4):
             ctx.run_case(monitor2_subprocess, ctx, 1000 + idx, 40, cold)
+    from symv.hooks import key_collision_hunt
+
+    for _, rng in ctx.cases("key-collisions", ctx.budget(16, 160)):
+        r_ = ctx.run_case(key_collision_hunt, ctx, hooks, rng, ctx.n(60000, 300000))
+        if r_:
+            ctx.evaluated(r_[0])
+            ctx.count("m6", "cache-key-lookups", r_[0])
+            ctx.count("m6", "digest-collisions-found", r_[1])
+            ctx.count("m6", "collisions-replayed", r_[2])
     hooks.set_cache(maxsize=8192, maxsectors=512, clear=True)
     for _, rng in ctx.cases("mode-context", ctx.budget(3000, 60000)):
         ctx.run_case(monitor3, ctx, hooks, rng)
